@@ -315,8 +315,8 @@ class Check:
         a["digests"].add(res["digest"])
         a["nontrivial"].update(res["nontrivial"])
         a["states"].update(res["states"])
-        if res.get("script") is not None and not res["violations"] and len(a["samples"]) < 4:
-            a["samples"].append({"seed": res["job"]["seed"], "batch": b, "script": res["script"]})
+        if res.get("script") is not None and len(a["samples"]) < 4 and (not res["violations"] or len(a["samples"]) < 2):
+            a["samples"].append({"seed": res["job"]["seed"], "batch": b, "script": res["script"], "violating": bool(res["violations"])})
         if res["violations"]:
             pb["violating_runs"] += 1
             a["viol"].append(res)
